@@ -325,6 +325,7 @@ def resolved(sc):
                 used.add(v[1:])
     if sc.get("tree"):
         walk(sc["tree"])
+    used |= set((sc.get("named") or {}).values())      # files an oracle refers to by name only (what a path *should* read as)
     sc["files"] = {k: {kk: vv for kk, vv in v.items() if kk in ("name", "content", "bytes_b64", "origin", "class")}
                    for k, v in sc["files"].items() if k in used}
     return copy.deepcopy(sc)
